@@ -5,9 +5,10 @@
 import Model.Scan
 import Spec.Scan
 import Proofs.Scan
+import Proofs.RunLoop
 
 namespace Props.C02
-open Model.Scan Spec.Scan Proofs.Scan
+open Model.Scan Spec.Scan Proofs.Scan Model.Run Proofs.Run
 
 /-- Every scan part of class K parses, and the parsed scanner state has a closed description:
     either a `*`/`N*` state, a pending lone range, or `these` = exactly the denoted lines. -/
@@ -114,6 +115,43 @@ theorem c02_last_is_greatest (k : K) (hk : k.WF) (m : Nat) (h : k.last? = some m
     have := last_spec f r hf hr
     simp only [K.den]
     exact this
+
+/-- Run-level clause, for every file and every matcher that does not itself stop the run or
+    advance: the records offered to the match part are exactly the denoted non-blank records, in
+    file order, and `scan_count` is their number — for `next()`/`fast_forward()` and for
+    `collect()`, in both return-modes, with or without `unmatched-mode: keep`.  (The scanner's own
+    stop at `is_last` never cuts off a denoted record.) -/
+theorem c02_offered {σ : Type} (k : K) (hk : k.WF) (m : MatcherSem σ) (hq : Quiet m) (cfg : Cfg)
+    (hrun : cfg.willRun = true) (recs : List Rec) (ms : σ) :
+    ∃ s, parse k.toExpr = .ok s ∧
+      (runWith m s cfg none recs { ms := ms }).2.1.offered = Spec.Scan.offered k recs ∧
+      (runWith m s cfg none recs { ms := ms }).2.1.scanCount = (Spec.Scan.offered k recs).length := by
+  obtain ⟨s, hp, hinc, hlast⟩ := c02_parse k hk
+  refine ⟨s, hp, ?_⟩
+  have hl : ∀ n, isLast s (endIdxOf recs) n = true → ∀ j, n < j → j < recs.length → k.den j = false := by
+    intro n hn j hj hjN
+    rw [hlast] at hn
+    cases hk' : k.last? with
+    | none =>
+      rw [hk'] at hn
+      simp only [endIdxOf] at hn
+      split at hn
+      · cases hn
+      · simp at hn; omega
+    | some mx =>
+      rw [hk'] at hn
+      have : n = mx := by simpa using hn
+      subst this
+      cases hd : k.den j with
+      | false => rfl
+      | true => have := (c02_last_is_greatest k hk n hk').2 j hd; omega
+  have hoff := runFrom_offered m hq s cfg.cwnm (cfg.collecting && cfg.unmatchedAvail) (endIdxOf recs)
+    k.den hinc recs.length hl recs 0 { ms := ms } {} (by simp) rfl rfl
+  have hinv := runFrom_Inv m s cfg.cwnm (cfg.collecting && cfg.unmatchedAvail) (endIdxOf recs) recs none 0
+    { ms := ms } {} (Inv_init ms)
+  simp only [runWith, hrun, if_true]
+  refine ⟨by simpa [Spec.Scan.offered] using hoff, ?_⟩
+  rw [hinv.scan, hoff]; simp [Spec.Scan.offered]
 
 /-! Non-vacuity: concrete members of K satisfying the hypotheses, evaluated by the kernel. -/
 example : (K.list (.range 0 3) [.line 9]).WF := by decide
